@@ -6,7 +6,7 @@ from replay import gen
 from .rt_tools import make_input
 from .rt_common import compare_plotfile, pf_expected, taste_ok, tree_digest
 
-MECH = "/repo/test_assets/drm19.yaml"
+MECH = os.path.join(os.environ.get("VERIF_REPO", "/repo"), "test_assets/drm19.yaml")
 
 REC1 = '''
 def recipe(field_indexes, box_array):
